@@ -228,12 +228,71 @@ fn imported_credentials(rep: &mut Report, seed: u64, n: usize) {
     }
 }
 
+/// Ceremonies over a store one of whose calls fails once (busy, locked, a rejected id) and succeeds when
+/// asked again: whatever comes back - response, status, panic message - is scanned for every secret the
+/// store holds afterwards.
+fn ceremonies_over_a_store_that_fails_once(rep: &mut Report, seed: u64, n: usize) {
+    use crate::collab::Kind;
+    for k in 0..n as u64 {
+        let mut rng = Rng::derive(seed, "c06-fault", k);
+        let rig = crate::util::Rig::ok(*rng.pick(&[crate::collab::Disc::Full, crate::collab::Disc::Forced, crate::collab::Disc::OnlyNonDiscoverable]));
+        let id = rng.bytes(16);
+        let hm = Some((rng.bytes(32), Some(rng.bytes(32))));
+        let (pk, _, _) = crate::util::seeded_passkey(&mut rng, "example.com", &id, Some(b"u"), Some(1), hm);
+        rig.store.insert_raw(pk);
+        let kind = *rng.pick(&[Kind::Save, Kind::Save, Kind::Find, Kind::Update]);
+        let nth = rng.below(2);
+        let code = *rng.pick(&[0x01u8, 0x06, 0x27, 0x28, 0x2E, 0x30, 0x7F, 0xE0, 0xF2, 0xFF]);
+        rig.store.set_fault(kind, nth, code);
+        let make = kind == Kind::Save || rng.bool();
+        let rk = rng.bool();
+        let mut auth = rig.auth(crate::util::AuthCfg { counters: rng.bool(), hmac: *rng.pick(&[crate::util::HmacCfg::None, crate::util::HmacCfg::WithoutUv]), ..Default::default() });
+        let case = json!({"index": 3_000_000 + k, "op": if make { "registration over a store that fails once" } else { "assertion over a store that fails once" }, "failing_call": format!("{kind:?} #{nth}"), "status": code, "rk": rk});
+        let mut renders = Vec::new();
+        if make {
+            let req = crate::util::mc_request("example.com", b"new-user", &rng.bytes(32), vec![crate::util::pk_param(coset::iana::Algorithm::ES256)], if rng.bool() { Some(vec![crate::util::descriptor(&[9u8; 16])]) } else { None }, None, rk, true, true);
+            match catch(|| block_on(auth.make_credential(req))) {
+                Ok(Ok(resp)) => {
+                    rep.count("fail_once_registrations_ok");
+                    renders.push(Render { kind: "make_credential/cbor".into(), bytes: cbor_of(&resp) });
+                    renders.push(Render { kind: "make_credential/debug".into(), bytes: format!("{resp:?}").into_bytes() });
+                    renders.push(Render { kind: "make_credential/authdata".into(), bytes: resp.auth_data.to_vec() });
+                }
+                Ok(Err(e)) => {
+                    rep.count("fail_once_registrations_refused");
+                    renders.push(Render { kind: "ctap-status/debug".into(), bytes: format!("{e:?}").into_bytes() })
+                }
+                Err((sig, d)) => renders.push(Render { kind: "panic-message".into(), bytes: format!("{sig} {d}").into_bytes() }),
+            }
+        } else {
+            let req = crate::util::ga_request("example.com", &rng.bytes(32), Some(vec![crate::util::descriptor(&id)]), None, true, true);
+            match catch(|| block_on(auth.get_assertion(req))) {
+                Ok(Ok(resp)) => {
+                    rep.count("fail_once_assertions_ok");
+                    renders.push(Render { kind: "get_assertion/cbor".into(), bytes: cbor_of(&resp) });
+                    renders.push(Render { kind: "get_assertion/debug".into(), bytes: format!("{resp:?}").into_bytes() });
+                }
+                Ok(Err(e)) => {
+                    rep.count("fail_once_assertions_refused");
+                    renders.push(Render { kind: "ctap-status/debug".into(), bytes: format!("{e:?}").into_bytes() })
+                }
+                Err((sig, d)) => renders.push(Render { kind: "panic-message".into(), bytes: format!("{sig} {d}").into_bytes() }),
+            }
+        }
+        for line in crate::logsink::drain() {
+            renders.push(Render { kind: "log-line".into(), bytes: line.into_bytes() });
+        }
+        let secrets = secrets_of(&rig.store.snapshot());
+        scan_all(rep, &secrets, &renders, &case);
+    }
+}
+
 pub fn run(args: &Args) -> Report {
     let mut rep = Report::new(
         "C06",
         &args.tier,
         args.seed,
-        "every value handed back in seeded ceremony histories (WebAuthn credentials, CTAP2 responses, errors, authenticator info, U2F responses, Debug of stored passkeys, the SubjectPublicKeyInfo the public helper derives from a stored key, lines the library logs to an installed logger) and whatever an assertion with an imported credential (PRF secrets of 16-64 bytes) yields, a panic message included, rendered to JSON, CBOR and Debug text and scanned, with recursive decoding, for every secret read back from the store; distinct by (rendering kind, content hash bucket); non-trivial when the value contains at least one byte string of 32 bytes or more while at least one secret is live",
+        "every value handed back in seeded ceremony histories (WebAuthn credentials, CTAP2 responses, errors, authenticator info, U2F responses, Debug of stored passkeys, the SubjectPublicKeyInfo the public helper derives from a stored key, lines the library logs to an installed logger) and whatever an assertion with an imported credential (PRF secrets of 16-64 bytes) yields, and whatever registrations and assertions yield over a store one of whose calls fails once, a panic message included, rendered to JSON, CBOR and Debug text and scanned, with recursive decoding, for every secret read back from the store; distinct by (rendering kind, content hash bucket); non-trivial when the value contains at least one byte string of 32 bytes or more while at least one secret is live",
     );
     rep.assumptions.push("PRF outputs are HMACs of a secret, not the secret; chance collisions of random 32-byte values are ignored".into());
     match taint::self_test() {
@@ -280,6 +339,7 @@ pub fn run(args: &Args) -> Report {
     if only.map_or(true, |o| o >= 1_000_000) {
         u2f_workload(&mut rep, args.seed, args.size(60, 1500));
         imported_credentials(&mut rep, args.seed, args.size(120, 3000));
+        ceremonies_over_a_store_that_fails_once(&mut rep, args.seed, args.size(120, 3000));
     }
     if only.is_none() && (rep.get("live_secrets") == 0 || rep.get("rendering:register/json") == 0 || rep.get("rendering:get_assertion/cbor") == 0) {
         rep.inconclusive("no live secret / no registration or assertion rendering was scanned".into());
